@@ -49,7 +49,7 @@ FramesOK(segs, frames, k) ==
           /\ LET pay == MkIn(Take(Drop(segs, r.hlen), plen))
                  h   == Dec("msgbegin", pay) IN
              /\ h.ok /\ f.seq = h.val.seq
-             /\ Norm(f.method) = Norm(Slice(pay, h.val.name.at, h.val.name.len))
+             /\ SegsEq(f.method, Slice(pay, h.val.name.at, h.val.name.len))
              /\ LET body == MkIn(Drop(pay.segs, h.n))
                     st   == ReadStruct(f.schema, body) IN
                 st.ok /\ st.n = body.len /\ SameVal(f.schema, NormVal(f.schema, f.val), st.val)
